@@ -8,12 +8,13 @@
       are the specification's member spans (C10 / C12: `Thm.C10`, `Thm.C12`);
     * an owned lazy container parsed one level serializes its untouched members verbatim
       (`untouched_members_verbatim`).
-  Not proved: that re-parsing the span alone gives the subtree of the enclosing parse (locality of
-  `Spec.tree`); the check compares every lazy view with the specification's tree of the text itself.
+  Locality is proved for compact texts (`view_in_context_is_view_alone`); for texts with whitespace
+  inside the value the check compares every lazy view with the specification's tree of the text itself.
 -/
 import SonicModel.Impl.Lazy
 import SonicModel.Thm.C09
 import SonicModel.Thm.C12
+import SonicModel.Lemmas.TreeRoundTrip
 namespace Sonic.Thm.C13
 open Sonic Spec Lazy
 
@@ -110,6 +111,22 @@ theorem load1_array (text : List UInt8) (items : List (Nat × Nat)) (h0 : text.t
     (hi : arrayItems text.toArray 0 = (items, true)) :
     load1 text = some (.arr (items.map fun (s, e) => .raw (text.toArray.extract s e).toList)) := by
   simp [load1, h0, hi]
+
+/-- **a value read in context and the same text read alone denote the same tree** (for compact
+    texts): inside any surrounding text the specification reads the rendering of `t` as `t` placed
+    at that offset, and alone as `t` placed at offset 0 — the lazy view of a member and the DOM of
+    its raw text are the same tree up to the position of number spans -/
+theorem view_in_context_is_view_alone (t : RJ) (h : t.WF) (pre suf : List UInt8) (f : Nat)
+    (hd : isDelim suf.head?) (hf : t.need ≤ f) :
+    tree false f (pre ++ t.render ++ suf).toArray pre.length = some (t.jsonAt pre.length, pre.length + t.render.length) ∧
+    docTree false t.render.toArray = some (t.jsonAt 0) := by
+  refine ⟨?_, doc_roundtrip t h⟩
+  apply reads_back t h (pre ++ t.render ++ suf) pre.length f ⟨pre, suf, rfl, rfl⟩ _ hf
+  have e : (pre ++ t.render ++ suf).toArray[pre.length + t.render.length]? = suf.head? := by
+    simp only [List.getElem?_toArray]
+    rw [List.getElem?_append_right (by simp), List.head?_eq_getElem?]
+    simp
+  rw [e]; exact hd
 
 /-! non-vacuity -/
 example : (load1 [91, 49, 44, 32, 116, 114, 117, 101, 93]).map ser = some [91, 49, 44, 116, 114, 117, 101, 93] := by decide +kernel
